@@ -11,7 +11,7 @@ def main(tier: str) -> int:
     slices = U.QUICK_SLICES if tier == "quick" else U.THOROUGH_SLICES
     res = campaign.run_slices(slices, inv=("Good",), timeout=1500 if tier == "thorough" else 400)
     states, trans, cov = slices_summary(run, res, "C19")
-    cases, stats = campaign.writer_campaign(tier, seed + 1919, parse_entries=(), n_beh=60 if tier == "quick" else 500)
+    cases, stats = campaign.writer_campaign(tier, seed + 1919, parse_entries=(), n_beh=60 if tier == "quick" else 500, rdflib_share=True)
     judged = 0
     tot = {"entries": 0, "re": 0, "me": 0, "mz": 0, "rg": 0}
     samples = []
